@@ -41,6 +41,8 @@ impl Out {
     pub fn op(&mut self, o: &GOp) {
         let a: Vec<String> = o.1.iter().map(|x| x.to_string()).collect();
         writeln!(self.cases, "{} {}", o.0, a.join(" ")).unwrap();
+        // the case file is flushed op by op: when the crate aborts or hangs, the unfinished last case names the input
+        self.cases.flush().unwrap();
         self.stat(&format!("op_{}", o.0));
     }
     pub fn obs_lines(&mut self, lines: &[String]) {
